@@ -315,6 +315,18 @@ fn mon_c05(snap: &Snap, limit: usize, armed: &mut BTreeMap<String, u64>) -> Vec<
             return out;
         }
     }
+    // per-connection accept errors must not put the listener into back-off
+    if let Some(a) = &snap.accept {
+        let injected: Vec<ErrKind> = snap.log.iter().filter_map(|(_, _, r)| if let Rec::Injected { kind, .. } = r { Some(*kind) } else { None }).collect();
+        let only_per_connection = !injected.is_empty() && injected.iter().all(|k| matches!(k, ErrKind::Aborted | ErrKind::Reset | ErrKind::Refused));
+        if only_per_connection {
+            *armed.entry("states_after_only_per_connection_errors".into()).or_insert(0) += 1;
+            if let Some(l) = a.socket_deadlines.iter().position(|d| d.is_some()) {
+                out.push(("C05:per-connection-error-delays-listener".to_string(), format!("only per-connection accept errors {:?} were injected, yet listener {l} is backing off (deadline in {:?})", injected, a.socket_deadlines[l])));
+                return out;
+            }
+        }
+    }
     // liveness at quiescent states
     if !snap.quiescent || !running(snap) {
         return out;
@@ -771,7 +783,7 @@ fn specs_for(prop: &'static str, tier: Tier) -> Vec<SpecImpl> {
 
         "C05" => {
             let cmds = vec![Ev::Pause, Ev::Resume];
-            let inj = |l: usize| vec![(l, ErrKind::Emfile), (l, ErrKind::Aborted)];
+            let inj = |l: usize| vec![(l, ErrKind::Emfile), (l, ErrKind::Aborted), (l, ErrKind::Refused), (l, ErrKind::Reset)];
             if q {
                 for k in [Uds, Tcp] {
                     v.push(mk(cfg(1, &[k], 2), Bounds { connects: 2, cmds: cmds.clone(), max_cmds: 3, ..Default::default() }));
